@@ -562,6 +562,26 @@ func addTerm(a, b string) string {
 	return a + "+" + b
 }
 
+// c10SeqOf abstracts every return of a DestinationSSRC method to its segment sequence.
+func c10SeqOf(fn *ssa.Function) (got []string, errs []string) {
+	an := newSeqAn(fn)
+	for _, b := range fn.Blocks {
+		ret, ok := b.Instrs[len(b.Instrs)-1].(*ssa.Return)
+		if !ok {
+			continue
+		}
+		s, err := an.seq(ret.Results[0], 0)
+		if err != nil {
+			errs = append(errs, err.Error())
+			continue
+		}
+		got = append(got, strings.Join(s, " "))
+	}
+	sort.Strings(got)
+	got = uniq(got)
+	return got, errs
+}
+
 func checkC10(c *Ctx) {
 	r := c.Rep
 	p := c.Prog
@@ -583,23 +603,7 @@ func checkC10(c *Ctx) {
 			continue
 		}
 		r.Anchor("C10-SEQ", t)
-		an := newSeqAn(fn)
-		var got []string
-		var errs []string
-		for _, b := range fn.Blocks {
-			ret, ok := b.Instrs[len(b.Instrs)-1].(*ssa.Return)
-			if !ok {
-				continue
-			}
-			s, err := an.seq(ret.Results[0], 0)
-			if err != nil {
-				errs = append(errs, err.Error())
-				continue
-			}
-			got = append(got, strings.Join(s, " "))
-		}
-		sort.Strings(got)
-		got = uniq(got)
+		got, errs := c10SeqOf(fn)
 		want := append([]string{}, c10Spec[t]...)
 		sort.Strings(want)
 		key := core.FuncName(fn) + "/sequence"
